@@ -361,6 +361,8 @@ type c05Oracle struct {
 	instr string
 	// replay of a recorded case: whether the position is evaluated is asked first (see c05Probe)
 	replay bool
+	// the base program may fail on its own (c05MiniLoose): only the failing-helper instruments are placed
+	loose bool
 }
 
 // dup: the same (shrunk) case is reported once
@@ -418,7 +420,9 @@ func c05Verdict(check string, o Obs, ran error, ref *Obs) string {
 // shrink looks for the innermost frame around the instrumented position that shows the same kind of
 // violation when rendered on its own: first the instrument alone (<%= fail() %>), then each enclosing
 // expression, statement, block or partial body, innermost first. It returns the smaller case and the
-// label of the edge below that frame (which operand / condition / block lost the error) — the family.
+// label of the edge that lost the error (which operand / condition / block) — the family: the edge below that frame, or,
+// when the frames just inside it cannot be rendered on their own (a call of a user function without its definition), the
+// edge above the last frame the error is seen to survive to.
 // The whole program is the last candidate, so a result always exists for a reproducible violation.
 func (c *c05Oracle) shrink(cs c05Case, kind string) (c05Case, Obs, string, string) {
 	s := c.site
@@ -428,7 +432,11 @@ func (c *c05Oracle) shrink(cs c05Case, kind string) (c05Case, Obs, string, strin
 	// violates: does the frame f (with its statement list reduced to parts, if given), rendered on its own, show the violation?
 	// (the instrument alone: a violation of any kind — the call itself is then where the error is lost, whatever the frames
 	// around it make of the value it hands up instead)
+	// (informative: the frame, on its own, does evaluate the position — a frame that lacks a definition from further out,
+	// a user function say, does not: it neither shows the violation nor shows that the failure survives up to it)
+	informative := false
 	violates := func(f *c05N, alone bool) (string, map[string]string, Obs, bool) {
+		informative = false
 		t, p := c.frameText(f, alone, c.instr, cs)
 		if cs.check != "ran-implies-error" {
 			// is the position evaluated at all in this smaller frame? ask the failing helper
@@ -441,6 +449,7 @@ func (c *c05Oracle) shrink(cs c05Case, kind string) (c05Case, Obs, string, strin
 		if o.Kind() == "PANIC" || o.Kind() == "HANG" {
 			return t, p, o, false
 		}
+		informative = cs.check != "ran-implies-error" || ran != nil
 		v := c05Verdict(cs.check, o, ran, nil)
 		if alone && v != "" {
 			kind = v
@@ -448,6 +457,9 @@ func (c *c05Oracle) shrink(cs c05Case, kind string) (c05Case, Obs, string, strin
 		return t, p, o, v == kind
 	}
 	prev := ""
+	// the outermost frame so far that evaluates the position on its own and does NOT show the violation: the failure is
+	// seen to survive up to there, it is lost at an edge above
+	survives := -1
 	for j := len(s.anc) - 1; j >= 0; j-- {
 		f := s.anc[j]
 		if f.code {
@@ -455,16 +467,30 @@ func (c *c05Oracle) shrink(cs c05Case, kind string) (c05Case, Obs, string, strin
 		}
 		alone := j == len(s.anc)-1
 		if t, _ := c.frameText(f, alone, c.instr, cs); t == prev {
+			if survives == j+1 {
+				survives = j // the same text as the frame just inside, which the failure survived
+			}
 			continue
 		} else {
 			prev = t
 		}
 		t, p, o, bad := violates(f, alone)
 		if !bad {
+			if informative {
+				survives = j
+			}
 			continue
 		}
+		// the edge that lost the failure: the one just above the frame it is seen to survive to (the frames between that
+		// one and f say nothing), else the one just below f
 		label := "call"
-		for i := j + 1; i < len(s.anc); i++ {
+		for i := survives; i > j; i-- {
+			if l := c05Label(s.anc[i]); l != "" {
+				label = l
+				break
+			}
+		}
+		for i := j + 1; label == "call" && i < len(s.anc); i++ {
 			if l := c05Label(s.anc[i]); l != "" {
 				label = l
 				break
@@ -867,7 +893,9 @@ func c05Mini() []*c05N {
 			)
 		}
 	}
-	return out
+	// positions nothing needs the value of (surplus arguments of a user function, a block on a call that takes none, dead
+	// code, untaken branches ...): see oracle_c05_uneval.go
+	return append(out, c05MiniUnevaluated()...)
 }
 
 // the failing helper, in every shape a helper call can take: plain / method; ("", err) / (usable value, err) / (nil, err) /
@@ -910,11 +938,17 @@ func (c *c05Oracle) base(root *c05N, idx int, mini bool) {
 	baseTmpl := c05Text(root, c05Sub{}, parts)
 	bo, _ := c05Run(baseTmpl, parts)
 	rep.Count("base tmpl="+strconv.Quote(baseTmpl), false)
-	if bo.Kind() != "OK" {
+	failsAlone := false
+	switch {
+	case bo.Kind() == "OK":
+		rep.Tag("base-OK")
+	case c.loose && bo.Kind() == "ERR":
+		failsAlone = true
+		rep.Tag("base-fails-on-its-own(failing-helper instruments only)")
+	default:
 		rep.Tag("base-discarded-" + bo.Kind())
 		return
 	}
-	rep.Tag("base-OK")
 	var sites []c05Site
 	c05Sites(root, nil, nil, &sites)
 	defer func() { c.site = nil }()
@@ -974,6 +1008,9 @@ func (c *c05Oracle) base(root *c05N, idx int, mini bool) {
 				c.runCase(c05Case{check: "ran-implies-error", tmpl: t, partials: p})
 			}
 		}
+		if failsAlone {
+			continue
+		}
 		// (2) a failing operation at the same (evaluated) position
 		c.instr = c05OpInstr[(idx+si)%len(c05OpInstr)]
 		t, p = variant(c.instr)
@@ -997,7 +1034,7 @@ func init() {
 	oracles["C05"] = func(cfg Config) []*Report {
 		rep := NewReport("C05", "C05", cfg)
 		c := &c05Oracle{rep: rep}
-		rep.Rule = "base programs: " + strconv.Itoa(len(c05Mini())) + " fixed minimal ones (one per operator x 4 surroundings, one per position class, partial with layout (failure in the partial / in the layout / one partial further down), a contentFor block rendered by a contentOf with a default block / data / both, in a silent tag, let value, condition, partial, layout, helper block or loop, after an earlier contentFor of the same name; a contentFor block FOLLOWED by later contentFor(s) of the same name (once / twice / in a partial / by loop iterations / in a branch / in a helper block) before contentOf; histories of two renders on one context (case part @next: the view stores contentFor blocks / variables / functions, the second render uses them); default block and data of a contentOf of an undefined name; each tolerant position x {partial, block helper, contentOf of a contentFor block without / with a default block} standing directly there) + random well-formed programs that evaluate without error (text, output/silent tags, let/assign/index-write, if/else-if/else, for over slice/map/iterator/helper result with break/continue, block helpers incl. htmlEscape and contentOf's default block (name undefined / defined up front), contentFor+contentOf (plain / with data / with a default block; a third of them with one or two later contentFor of the same name), about every 8th program split into two renders on one context, partial with data / with a layout partial / under a javascript content type, user fn definition+call, return; helpers that render nested code (partial, block helper + block, contentOf) also as operands: if/else-if condition, operand of ! == != && ||, array element, argument, printed value); for EVERY expression position of a base program (operand of each of the 13 binary operators and of !, condition, index/indexed value/assigned value, array/hash element, argument of Go/variadic/built-in/block helper, method or user function, let/assign/return value, loop iterable; inside branch, loop, helper block, contentFor block, partial, layout and fn bodies) one variant per instrument: failing helper (fail()/o.Fail() alternating), and where it ran: the failing helper in its other shapes (non-zero value next to the error, error as the only result, arguments, a block rendered before it fails, and a field / method / index access chained to the call on a usable object or a nil pointer: (failO().Name), (failN().Name), (failO().Echo(..)), (o.FailO().Name), (failO().Tags[0]), (failN().Get(1)); all shapes at every position of the minimal programs, one rotating shape at every 2nd position of a random one), the failing helper for every kind of Go value its error can be (zero values of non-pointer error types: empty struct, int / string based, struct with unset fields, nil slice with an Is method — also as only result, from a method, next to a usable value / object with a chained access; the same types non-zero; pointer to struct; %w-wrapping error; errors.Join; all kinds at every position of the minimal programs, one rotating kind at every other 2nd position of a random one), a failing helper whose error wraps / is an unknown-identifier error (failU()/o.FailU()/failD()/(failUO().Name); every position at or below a tolerant frame, every 4th other one), a failing operation ((1 / 0) / xs[9] / (s1 - 1) / o.Nope) and an unknown identifier; non-trivial = the instrument was evaluated; distinct by case text"
+		rep.Rule = "base programs: " + strconv.Itoa(len(c05Mini())) + " fixed minimal ones (one per operator x 4 surroundings, one per position class, partial with layout (failure in the partial / in the layout / one partial further down), a contentFor block rendered by a contentOf with a default block / data / both, in a silent tag, let value, condition, partial, layout, helper block or loop, after an earlier contentFor of the same name; a contentFor block FOLLOWED by later contentFor(s) of the same name (once / twice / in a partial / by loop iterations / in a branch / in a helper block) before contentOf; histories of two renders on one context (case part @next: the view stores contentFor blocks / variables / functions, the second render uses them); default block and data of a contentOf of an undefined name; each tolerant position x {partial, block helper, contentOf of a contentFor block without / with a default block} standing directly there; positions nothing needs the value of: arguments of a user function beyond its parameter list (call printed / silent / as condition / operand / let, assign, return value / argument / element / index / iterable / inside loop, branch, block, partial, contentFor and fn bodies / nested in another call), a block attached to a call that takes none (user function, Go helper, method, built-in), arguments of a call on a missing method, the body of a loop over nothing, code behind break / continue / return, branches not taken, the right operand of a decided && / ||) + " + strconv.Itoa(len(c05MiniLoose())) + " minimal programs whose call fails on its own before looking at its arguments (too many / too few arguments, callee no function / unknown, argument behind a mismatched one, block of such a call; failing-helper instruments only) + random well-formed programs that evaluate without error (text, output/silent tags, let/assign/index-write, if/else-if/else, for over slice/map/iterator/helper result with break/continue, block helpers incl. htmlEscape and contentOf's default block (name undefined / defined up front), contentFor+contentOf (plain / with data / with a default block; a third of them with one or two later contentFor of the same name), about every 8th program split into two renders on one context, partial with data / with a layout partial / under a javascript content type, user fn definition+call (about 45% of the calls with one or two arguments beyond the parameter list), return; helpers that render nested code (partial, block helper + block, contentOf) also as operands: if/else-if condition, operand of ! == != && ||, array element, argument, printed value); for EVERY expression position of a base program (operand of each of the 13 binary operators and of !, condition, index/indexed value/assigned value, array/hash element, argument of Go/variadic/built-in/block helper, method or user function (bound and surplus), let/assign/return value, loop iterable; inside branch, loop, helper block, contentFor block, partial, layout and fn bodies) one variant per instrument: failing helper (fail()/o.Fail() alternating), and where it ran: the failing helper in its other shapes (non-zero value next to the error, error as the only result, arguments, a block rendered before it fails, and a field / method / index access chained to the call on a usable object or a nil pointer: (failO().Name), (failN().Name), (failO().Echo(..)), (o.FailO().Name), (failO().Tags[0]), (failN().Get(1)); all shapes at every position of the minimal programs, one rotating shape at every 2nd position of a random one), the failing helper for every kind of Go value its error can be (zero values of non-pointer error types: empty struct, int / string based, struct with unset fields, nil slice with an Is method — also as only result, from a method, next to a usable value / object with a chained access; the same types non-zero; pointer to struct; %w-wrapping error; errors.Join; all kinds at every position of the minimal programs, one rotating kind at every other 2nd position of a random one), a failing helper whose error wraps / is an unknown-identifier error (failU()/o.FailU()/failD()/(failUO().Name); every position at or below a tolerant frame, every 4th other one), a failing operation ((1 / 0) / xs[9] / (s1 - 1) / o.Nope) and an unknown identifier; non-trivial = the instrument was evaluated; distinct by case text"
 		if cfg.Arg != "" {
 			cs, err := c05ParseCase(cfg.Arg)
 			if err != nil {
@@ -1011,6 +1048,7 @@ func init() {
 		rep.Notes = append(rep.Notes,
 			"short-circuit and untaken branches are respected: a position counts only if the instrumented helper actually ran there",
 			"an unknown identifier nested below (not directly at) a condition or an operand of ! == != && || — e.g. if (f(undef)) — is not checked either way: the statement does not say whether the tolerance reaches through intermediate frames",
+			"a position nothing needs the value of (surplus argument of a user function, block on a call that takes none, dead code, untaken branch, arguments of a call that fails before it evaluates them) is held to nothing unless the instrumented helper is invoked there; if it is, its failure must fail Render like anywhere else — whether such a position ought to be evaluated at all is not this property's business",
 			"panics/hangs of a variant are C04's subject and are skipped here",
 			"a case with part:@next is a history of two renders on ONE context: tmpl first, then (if that succeeded without invoking the instrumented helper) the @next template; each Render is held to the statement on its own: the one during which the helper was invoked must return (\"\", err)",
 			"whatever non-nil value a helper returns as its error (declared result type error) is an error: zero values of struct / int / string / slice based error types included; typed nil pointers and helpers declared with a concrete error type are not exercised (the statement leaves open whether those have failed)",
@@ -1021,6 +1059,11 @@ func init() {
 		for i, b := range c05Mini() {
 			c.base(b, i, true)
 		}
+		c.loose = true
+		for i, b := range c05MiniLoose() {
+			c.base(b, i, true)
+		}
+		c.loose = false
 		n := cfg.N(400, 7200)
 		c04Chunked(rep, cfg, 16, n, func(lo, hi int, wr *Report) {
 			w := &c05Oracle{rep: wr}
